@@ -701,12 +701,30 @@ def check_C15(report, tier, seed, replay=None):
         desc = {"property": "C15", "server": rc.describe(), "ops": [[repr(x) for x in o] for o in ops]}
         for j, op in enumerate(ops):
             before = rc.dump()
+            # the functional specification (ms/Spec.v, theorem C15_session_refines_spec) on the server state before
+            spec = None
+            if op[0] not in ("connect", "capability", "logout"):
+                spec = drv.ask("spec_op %d %s" % (1 if version else 0, I.op_tokens(op)))
             ri, rm, _ = rc.both(op)
             after = rc.dump()
             trace.append(ri)
             report.case((i, j, op), len(ops) > 3)
             report.count("op:" + op[0])
             mismatch = ri != rm
+            if spec is not None and spec != "none":
+                report.count("spec-defined")
+                sv, sdump = spec.split(" ", 1)
+                sd = dict(kv.split("=", 1) for kv in sdump.split(" "))
+                ad = dict(kv.split("=", 1) for kv in drv.ask("srv_dump").split(" "))
+                got = ri.split(" ")[0]
+                if got != "D:" + sv or (sd["store"], sd["active"]) != (ad["store"], ad["active"]):
+                    mismatch = True
+                    report.broke("correspondence C15 (functional specification spec_op vs real client and server data)",
+                                 "step %d %r client=%r spec=%r server store=%s active=%s spec store=%s active=%s"
+                                 % (j, op, got, sv, ad["store"], ad["active"], sd["store"], sd["active"]),
+                                 dict(desc, step=j))
+            elif spec == "none":
+                report.count("spec-undefined:" + op[0])
             if mismatch:
                 report.broke("correspondence C15 (session step: model client vs real client)",
                              "step %d %r impl=%r model=%r" % (j, op, ri, rm), dict(desc, step=j))
